@@ -37,7 +37,9 @@ MANIFEST = dict(
                 "check_fullness never called too_full stays false in every reachable state (C09_off). Replayed against "
                 "the real Mux objects; gate, ping-once, bound, resume and server start-up with every buffer size are "
                 "checked on the real code."),
-    level_note=("Trusted: as C01. Actual latency and the OS socket buffer in front of ssh are outside. Defect found and "
+    level_note=("Trusted: as C01. Actual latency and the OS socket buffer in front of ssh are outside. That the server's loop "
+                "returns to select (no handler blocks on a descriptor select did not report: host-watch bursts around the read "
+                "size, then a PING, through the real server.main wiring) is decided on the real code only, not by a theorem. Defect found and "
                 "repaired: server.main raised UnboundLocalError for --latency-buffer-size 0 (see known_findings/C09.json)."),
     technique="Lean 4 proof (invariants of the latency state machine over all schedules) + differential replay + wire-log oracle",
 )
@@ -271,9 +273,94 @@ def server_start(ctx):
                           observed=repr(e))
 
 
+def server_loop_keeps_answering(ctx, only=None):
+    """'Every such request is eventually answered' needs the server's loop to come back to select: a handler that
+    blocks (reads again from a descriptor select did not report) stops every PONG.  Real server.main wiring, real
+    ssnet.runonce; the host-watch child is a scripted socket whose recv() with nothing pending is the blocking call
+    it would be on a real socket.  Bursts of host-watch output around the 4096-byte read size, then a PING."""
+    import struct
+    import sshuttle.server as server
+    import sshuttle.ssnet as ssnet
+
+    class Blocked(BaseException):
+        pass
+
+    class HwSock:
+        def __init__(self):
+            self.data = b''
+
+        def recv(self, n):
+            if not self.data:
+                raise Blocked()
+            out, self.data = self.data[:n], self.data[n:]
+            return out
+
+        def fileno(self):
+            return 4242
+
+    def frame(chan, cmd, data):
+        return struct.pack('!ccHHH', b'S', b'S', chan, cmd, len(data)) + data
+
+    for size in (1, 100, 4095, 4096, 4097, 8192, 12288):
+        if only is not None and only != size:
+            continue
+        ctx.count()
+        ctx.hist('directed:hostwatch-burst')
+        ctx.mark(('hostwatch-burst', size), True)
+        t = ts.RealTunnel(bufsize=32768)
+        saved = server.start_hostwatch
+        hws = HwSock()
+        what = None
+        try:
+            server.start_hostwatch = lambda seed, auto: (4243, hws)
+            t.smux.got_host_req = t.real_got_host_req
+
+            def one_pass(frames):
+                t.smux.rfile.data = b''.join(frames)
+                t.ready = (([t.smux.rfile] if frames else []) + ([hws] if hws.data else []), [t.smux.wfile], [])
+                try:
+                    ssnet.runonce(t.shandlers, t.smux)
+                finally:
+                    t.smux.rfile.data = b''
+                    t.ready = ([], [], [])
+            try:
+                one_pass(list(t.cmux.outbuf) + [frame(0, ssnet.CMD_HOST_REQ, b'')])
+                line = b'host-%d,192.0.2.7\n'
+                body = b''
+                k = 0
+                while len(body) + 40 < size:
+                    body += line % k
+                    k += 1
+                pad = size - len(body)
+                body += (b'h' * max(pad - 11, 0) + b',192.0.2.8\n')[-pad:] if pad > 0 else b''
+                hws.data = body[:size].ljust(size, b'x')
+                for _ in range(12):
+                    if not hws.data:
+                        break
+                    one_pass([])
+                n0 = len(t.smux.outbuf)
+                one_pass([frame(0, ssnet.CMD_PING, b'rttest')])
+                pongs = [p for p in t.smux.outbuf[n0:] if struct.unpack('!ccHHH', p[:8])[3] == ssnet.CMD_PONG and p[8:] == b'rttest']
+                if not pongs:
+                    what = 'no PONG queued for the PING that followed the burst'
+            except Blocked:
+                what = 'a handler called recv() on the host-watch socket with nothing pending: the loop blocks there and answers no PING'
+            except Exception as e:  # noqa
+                what = 'server loop raised %s: %s' % (type(e).__name__, e)
+        finally:
+            server.start_hostwatch = saved
+            t.close()
+        if what:
+            ctx.violation('C09:server-loop:ping-not-answered-after-hostwatch-burst',
+                          case=dict(kind='hostwatch-burst', size=size),
+                          expected='the PING that follows %d bytes of host-watch output is answered' % size, observed=what)
+            break
+
+
 def run(ctx):
     rng = ctx.rng
     server_start(ctx)
+    server_loop_keeps_answering(ctx)
     all_in, all_out = [], []
     for tag, fn in ([('bound-%d' % b, (lambda b=b: queued_payload_bound(ctx, rng, b))) for b in (2048, 5000)] +
                     [('burst', lambda: tg.burst_in_one_read(ctx, rng, 'C09', 120, bufsize=300, latency=True))]):
@@ -316,6 +403,11 @@ def replay(ctx, rep):
         server_start(c2)
         hit = [v for v in c2.violations if v['key'] == rep['key']]
         return bool(hit), (hit[0]['observed'] if hit else 'server starts')
+    if case.get('kind') == 'hostwatch-burst':
+        c2 = type(ctx)(ctx.prop_id, 'quick', 0)
+        server_loop_keeps_answering(c2, only=case['size'])
+        hit = [v for v in c2.violations if v['key'] == rep['key']]
+        return bool(hit), (hit[0]['observed'] if hit else 'the PING after the burst is answered')
     s, wrote = tg.replay_script(case)
     try:
         t = s.t
